@@ -148,7 +148,7 @@ def _http_case(http, n, k):
         for i, el in enumerate(es):
             txt = str(to_term(ex.read_node(el)) if not isinstance(ex.read_node(el), Node) else _deep_str(ex, el))
             for j in range(k):
-                if re.search(rf"reply{j}\b", txt):
+                if re.search(rf"(reply{j}|\.el{j})\b", txt):
                     viol_pos.append(z3.And(pc, rids[j] != s + i))
     return b, ctx, viol_len, viol_pos, reach_ok, reach_err, bad, rids, s
 
@@ -184,7 +184,7 @@ def obligations(tier, seed):
         out.append(R.decide(name + ":positional", "kernel", z3.Or(*viol_pos) if viol_pos else z3.BoolVal(False), reach,
                             desc="HTTP client: an entry of the result is only ever filled with the response whose id is start + its position",
                             bounds=f"n={n}, {k} reply ids any u64", keydetail="http-positional",
-                            replay=dict(scenario="c12_http_batch", vars=args, fixed={"n": n, "k": k}, region=z3.And(z3.ULE(s, 1000), *[z3.ULE(r_, 2000) for r_ in rids])), **common))
+                            replay=dict(scenario="c12_http_batch", vars=args, fixed={"n": n, "k": k}, region=z3.And(z3.UGE(s, 100), z3.ULE(s, 1000), *[z3.ULE((r_ - s) + 16, 32) for r_ in rids])), **common))
     cases = [(1, 1), (2, 2), (3, 2), (2, 3), (3, 3)] if tier == "quick" else [(n, k) for n in (1, 2, 3, 4) for k in (1, 2, 3, 4, 5)]
     for n, k in cases:
         ex, ctx, viol, reach_ok, reach_err, abnormal, panics, rids, s = _ws_case(core, n, k)
